@@ -49,6 +49,11 @@ m('digests_level_le', ['C15'], 'src/base/digest.rs', "            if level < lev
 m('walk_structure_wrong_edge', ['C15'], 'src/base/walk.rs', "envelope._walk_structure(next_level, EdgeType::Wrapped, parent, visit);", "envelope._walk_structure(next_level, EdgeType::Subject, parent, visit);")
 m('register_tags_lost_update', ['C20'], 'src/base/format_context.rs', "pub fn register_tags() {\n    with_format_context_mut!(|context: &mut FormatContext| {\n        register_tags_in(context);\n    });\n}", "pub fn register_tags() {\n    let mut copy = with_format_context!(|context: &FormatContext| context.clone());\n    register_tags_in(&mut copy);\n    with_format_context_mut!(|context: &mut FormatContext| { *context = copy.clone(); });\n}", "read-modify-write outside the lock")
 
+m('elide_revealing_array_wrong_flag', ['C03'], 'src/base/elide.rs', "    pub fn elide_revealing_array_with_action(&self, target: &[&dyn DigestProvider], action: &ObscureAction) -> Self {\n        self.elide_array_with_action(target, true, action)", "    pub fn elide_revealing_array_with_action(&self, target: &[&dyn DigestProvider], action: &ObscureAction) -> Self {\n        self.elide_array_with_action(target, false, action)", "one convenience variant passes the wrong mode")
+m('add_signatures_skips_first', ['C09'], 'src/extension/signature/signature_impl.rs', "        private_keys\n            .iter()\n            .fold(self.clone(), |envelope, private_key| { envelope.add_signature(*private_key) })", "        private_keys\n            .iter().skip(1)\n            .fold(self.clone(), |envelope, private_key| { envelope.add_signature(*private_key) })")
+m('add_optional_assertion_envelope_none_wraps', ['C07'], 'src/base/assertions.rs', "            None => Ok(self.clone()),\n        }\n    }\n\n    /// Adds an assertion with the given predicate and optional object.", "            None => Ok(self.wrap_envelope()),\n        }\n    }\n\n    /// Adds an assertion with the given predicate and optional object.", "None is no longer the identity")
+m('hex_opt_panics_on_elided', ['C16'], 'src/base/format.rs', "    pub fn hex_opt(&self, annotate: bool, context: Option<&FormatContext>) -> String {", "    pub fn hex_opt(&self, annotate: bool, context: Option<&FormatContext>) -> String {\n        assert!(!self.is_elided() || annotate);")
+
 SECOND = {'once_replaced_by_check_then_init': ('src/base/format_context.rs', "            *self.data.lock().unwrap() = Some(context);\n        });\n        self.data.lock().unwrap()", "            *self.data.lock().unwrap() = Some(context);\n        }\n        self.data.lock().unwrap()")}
 
 RES = '/verif/mutants/results.json'
